@@ -21,6 +21,7 @@ def routing_configs(sizes=(5, 8)):
     for n in sizes:
         out += [
             dict(env="tsp", n=n),
+            dict(env="tsp", n=n, dense=True),  # DenseRewardTSPEnv (step-wise reward variant, always in TorchRL mode)
             dict(env="atsp", n=n),
             dict(env="cvrp", n=n),
             dict(env="cvrptw", n=n, scale=False),
@@ -61,6 +62,10 @@ def make(cfg):
     if cfg.get("torchrl"):
         kw["_torchrl_mode"] = True  # documented: step() returns the caller's TensorDict with the new state under "next"
     if name == "tsp":
+        if cfg.get("dense"):
+            from rl4co.envs.routing.tsp.env import DenseRewardTSPEnv
+
+            return DenseRewardTSPEnv(generator_params=dict(num_loc=n)), R.TSP
         return E.TSPEnv(generator_params=dict(num_loc=n), **kw), R.TSP
     if name == "atsp":
         return E.ATSPEnv(generator_params=dict(num_loc=n, tmat_class=cfg.get("tmat", True)), **kw), R.ATSP
